@@ -522,6 +522,8 @@ def case_tags(ref):
                 if e[0] != "f":
                     tags.append("ctc.literal_" + {"i": "int", "r": "float", "s": "str"}[e[0]])
                 continue
+            if (e[0] in AGG1 or e[0] in AGG2) and len(e) == 2:
+                tags.append("ctc.aggregate_one_arg")
             if e[0] == "NOT" and e[1][0] not in TERMS:
                 tags.append("ctc.not_over_op")
             if e[0] == "NOT" and e[1][0] == "NOT":
